@@ -295,6 +295,25 @@ func (e *Enc) applyContract(fr *Frame, st *State, fc *FuncContract, sig *types.S
 		e.assumedUsed[fc.Key+" (ensures clauses trusted; body checked for safety only)"] = true
 	}
 	e.contractsUsed[fc.Key] = true
+	if hasSelf && selfType != nil {
+		if _, isIface := selfType.Underlying().(*types.Interface); isIface && !fc.Assumed {
+			// an in-repo interface contract: say which implementations are checked against it
+			var impls []string
+			for k, other := range e.P.CS.Funcs {
+				for _, r := range other.Refines {
+					if strings.HasPrefix(fc.Key, "("+r+").") && strings.HasSuffix(k, "."+name) {
+						impls = append(impls, shortenKey(k))
+					}
+				}
+			}
+			sort.Strings(impls)
+			if len(impls) == 0 {
+				e.assumedUsed["interface contract "+shortenKey(fc.Key)+" is assumed at this call site; no implementation is checked against it"] = true
+			} else {
+				e.assumedUsed["interface contract "+shortenKey(fc.Key)+" is assumed at this call site; checked (refines) for "+strings.Join(impls, ", ")+" only"] = true
+			}
+		}
+	}
 	if strings.HasPrefix(fc.Key, "(*sync.Mutex).") || strings.HasPrefix(fc.Key, "(*sync.RWMutex).") {
 		if len(args) > 0 {
 			seen := false
